@@ -208,6 +208,22 @@ def single_hash(ctx, tk):
         ok = (tm.k == "bin" and tm.a[0] == "%" and tm.a[1].k == "param" and _is_mod(tm.a[2])) or \
             (np_call(tm, {"mod", "remainder"}) and len(tm.a[1]) == 2 and _is_mod(tm.a[1][1]))
         bad = np_call(tm, {"fmod"}) is not None
+        if tm.k == "param" and tm.a[0] in g.params[1:]:
+            # "already reduced" shortcut: x % m == x needs 0 <= x as well as x < m
+            lower = upper = False
+            for t, truth, _ in facts_at(ga, r):
+                for x in walk(t):
+                    nm = (attr_chain(x.a[0]) or ("",))[-1] if x.k == "call" else None
+                    if nm in ("min", "amin"):
+                        lower = True
+                    if nm in ("max", "amax"):
+                        upper = True
+                    if x.k == "attr" and x.a[1] == "kind":
+                        lower = True      # an unsigned-dtype test bounds the keys below
+            ctx.decide("C11.d", g, "a key is its own hash only when 0 <= key < modulus", True if (lower and upper) else (False if upper else None),
+                       "the keys are returned unchanged when their maximum is below the modulus; negative keys (x % m is in [0, m)) then keep negative bucket numbers",
+                       node=r.ast, key="identity-shortcut", engine="KB")
+            continue
         ctx.decide("C11.d", g, "the hash is key modulo the table's modulus, i.e. a bucket number in [0, modulus) also for negative keys", True if ok else (False if bad else None),
                    "`%s`: np.fmod takes the sign of the key, so negative keys get negative bucket numbers that disagree with the sorted bucket layout" % (tm,), node=r.ast, engine="KB")
     # KB (NEP 50): a numpy scalar is a strong operand.  `int64_queries % np.uint64(m)` has no common integer type and comes
